@@ -85,19 +85,19 @@ SWT = "switchport trunk allowed vlan"
 KINDS = {k.name: k for k in [
     Kind("hw-trunk", "huawei", "huawei", "port trunk allow-pass vlan", "huawei.vlandb.multi_all", "huawei.rul",
          r"^\s+port trunk allow-pass vlan\s+%logic=huawei\.vlandb\.multi_all\s*$", "interface * / port trunk allow-pass vlan",
-         parent=HW_IF, ctx_rows=["port link-type trunk"], all_ok=True),
+         parent=HW_IF, all_ok=True),
     Kind("hw-hybrid-tagged", "huawei", "huawei", "port hybrid tagged vlan", "huawei.vlandb.multi_all", "huawei.rul",
          r"^\s+port hybrid tagged vlan\s+%logic=huawei\.vlandb\.multi_all\s*$", "interface * / port hybrid tagged vlan",
-         parent=HW_IF, ctx_rows=["port link-type hybrid"], all_ok=True),
+         parent=HW_IF, all_ok=True),
     Kind("hw-hybrid-untagged", "huawei", "huawei", "port hybrid untagged vlan", "huawei.vlandb.multi_all", "huawei.rul",
          r"^\s+port hybrid untagged vlan\s+%logic=huawei\.vlandb\.multi_all\s*$", "interface * / port hybrid untagged vlan",
-         parent=HW_IF, ctx_rows=["port link-type hybrid"], all_ok=True),
+         parent=HW_IF, all_ok=True),
     Kind("hw-batch", "huawei", "huawei", "vlan batch", "huawei.vlandb.multi", "huawei.rul",
          r"^vlan batch\s+%diff_logic=huawei\.vlandb\.vlan_diff\s+%logic=huawei\.vlandb\.multi\s*$", "vlan batch",
          extra_forms=[("vlan", "id")], blk_render="listed", blk_states=[None, "", "name x", "name y"]),
     Kind("hw-stp", "huawei", "huawei", "instance 1 vlan", "huawei.vlandb.single", "huawei.rul",
          r"^\s+instance \*\s+%logic=huawei\.vlandb\.single\s*$", "stp region-configuration / instance *",
-         parent="stp region-configuration", ctx_rows=["region-name r"], clear_rows=["undo instance 1"], maxlines=1),
+         parent="stp region-configuration", clear_rows=["undo instance 1"], maxlines=1),
     Kind("hw-pool", "huawei", "huawei", "vlan", "huawei.vlandb.multi", "huawei.rul",
          r"^\s+vlan(?: \*)?\s+%logic=huawei\.vlandb\.multi\s*$", "vlan pool * / vlan *", parent="vlan pool p"),
     Kind("nx-vlan", "nexus", "nexus", "vlan", "cisco.vlandb.simple", "nexus.rul",
@@ -107,13 +107,13 @@ KINDS = {k.name: k for k in [
          r"^vlan group \* vlan-list\s+%logic=cisco\.vlandb\.simple\s*$", "vlan group * vlan-list", neg="no"),
     Kind("nx-swtrunk", "nexus", "nexus", SWT, "cisco.vlandb.swtrunk", "nexus.rul",
          r"^\s+switchport trunk allowed vlan\s+%logic=cisco\.vlandb\.swtrunk\s*$", "interface * / switchport trunk allowed vlan",
-         parent=CS_IF, ctx_rows=["switchport mode trunk"], mode="swtrunk", neg="no", empty_alt=SWT + " none"),
+         parent=CS_IF, mode="swtrunk", neg="no", empty_alt=SWT + " none"),
     Kind("cat-vlan", "catalyst", "catalyst", "vlan", "cisco.vlandb.simple", "cisco.rul",
          r"^vlan\s+%logic=cisco\.vlandb\.simple\s*$", "vlan", neg="no",
          blk_render="unlisted", blk_states=[None, "name x", "name y"]),
     Kind("cat-swtrunk", "catalyst", "catalyst", SWT, "cisco.vlandb.swtrunk", "cisco.rul",
          r"^\s+switchport trunk allowed vlan\s+%logic=cisco\.vlandb\.swtrunk\s*$", "interface * / switchport trunk allowed vlan",
-         parent=CS_IF, ctx_rows=["switchport mode trunk"], mode="swtrunk", neg="no", empty_alt=SWT + " none"),
+         parent=CS_IF, mode="swtrunk", neg="no", empty_alt=SWT + " none"),
 ]}
 BLK_IDS = [3, 100]
 
@@ -225,14 +225,20 @@ def plan_blocks(tier):
 
 
 def blocks(tier, seed):
-    bl = plan_blocks(tier)
+    """cheap parts first, then the pair entries by ascending size: if the budget runs out on a loaded machine what
+    is left unexplored is the tail of the largest entries, and the evidence says so"""
+    bl = [{"part": "rules"}]
+    for j in range(RT_BLOCKS):
+        bl.append({"part": "rt", "shard": j, "of": RT_BLOCKS})
     for name in WIDE_KINDS:
         for j in range(2):
             bl.append({"part": "wide", "kind": name, "shard": j, "of": 2})
-    for j in range(RT_BLOCKS):
-        bl.append({"part": "rt", "shard": j, "of": RT_BLOCKS})
-    bl.append({"part": "rules"})
+    sizes = plan_sizes(tier)
+    bl.extend(sorted(plan_blocks(tier), key=lambda b: (sizes[b["entry"]], b["entry"], b["shard"])))
     return bl
+
+
+KEEP_ORDER = True     # see blocks(); the verdict does not depend on the order, VERIF_SEED is not used at all
 
 
 # ---------------------------------------------------------------------------------------------------
